@@ -58,6 +58,7 @@ struct EdgeBuf {
 }
 
 RXV_SUBCOMMAND(c06) {
+	runWatchdogKey() = "C06:watchdog:program-execution-did-not-return";
 	Rng rng(args.seed, 0xc06, args.shard);
 	const uint64_t nProgs = args.cases ? args.cases : 100;
 	const uint64_t nPlace = args.num("placements", 20);
